@@ -271,7 +271,7 @@ func checkImports(r *core.Run, voc *Vocab, graphs []graph, cases map[string]*Cas
 			tg := targetByName(o.cfg.Target)
 			j := nodeJob{ID: fmt.Sprintf("g%d/out%d", i, k), CSS: o.text, Universe: c.Props}
 			for ix, e := range c.Envs {
-				if f, ok := outEnv(c, e, tg); ok {
+				if f, ok := outEnv(c, e, tg); ok && !(o.warnIs && !subset([]string{"is"}, f)) {
 					o.envIx = append(o.envIx, ix)
 					j.Envs = append(j.Envs, nodeEnv{Conds: voc.nodeConds(c, e), Feats: f})
 				}
